@@ -7,3 +7,5 @@ import Modbus.Props.C06
 #print axioms Modbus.C06.crc_residue_spec
 #print axioms Modbus.C06.crc_check_value
 #print axioms Modbus.C06.crc_check_value_model
+#print axioms Modbus.C06.crc_rocksoft
+#print axioms Modbus.C06.crc_eq_rocksoft
